@@ -30,7 +30,7 @@ def gen_constexpr(r: random.Random, name: str, others):
         body = [f"def {name}(a, b):", f"    t = a {op} b", f"    return (t * {r.choice([2, 3, 0.5, 0.25])}) + {r.choice(ENUMS)}"]
         call = lambda: f"{name}({r.choice([1, 2, 7, 0.5, 10])}, {r.choice([3, 4, 1.5, 100])})"
     elif kind == "hash":
-        body = [f"def {name}(s, count={r.randrange(1, 60)}):", f"    return HASH(s) << {r.choice([8, 16])} | count << {r.choice([0, 8])} | {r.choice(['0x02', '1'])}"]
+        body = [f"def {name}(txt, count={r.randrange(1, 60)}):", f"    return HASH(txt) << {r.choice([8, 16])} | count << {r.choice([0, 8])} | {r.choice(['0x02', '1'])}"]
         call = lambda: f"{name}(\"{r.choice(['ItemSteelIngot', 'ItemIronOre', 'abc', 'Main'])}\"" + r.choice(["", f", {r.randrange(1, 99)}", f", count={r.randrange(1, 99)}"]) + ")"
     elif kind == "branch":
         body = [f"def {name}(n, negate=False):", "    v = n * 4", "    if negate:", f"        v = v + {r.choice(ENUMS)}", "    elif n > 5:", "        v = v - 1", "    return v"]
@@ -73,14 +73,20 @@ def gen_program(seed):
         r2 = random.Random(seed + 1)
         ces2 = []
         for i in range(2):
-            src, call = gen_constexpr(r2, f"lc{i}", ces2)
+            src, call = gen_constexpr(r2, f"lc{i}", [])  # siblings are invisible inside the generated class body (known finding)
             lib_lines += src
             ces2.append((f"lc{i}", call))
-        lib_lines += ["def apply(v):", f"    d3.Setting = v + {ces2[0][1]()}", ""]
+        # (a library constexpr called from the library's own code is rejected: known finding)
+        lib_lines += ["def apply(v):", "    d3.Setting = v + 1", ""]
         main2 = main.replace(HDR, HDR + "from library import lib\n", 1) + f"d4.Setting = lib.{ces2[1][1]()}\nlib.apply(d0.On)\nlib.apply(2)\n"
         return {"": main2, "lib": "\n".join(lib_lines) + "\n"}, [n for n, _ in ces] + [n for n, _ in ces2]
     return main, [n for n, _ in ces]
 
+
+WITNESS_LIB_INTERNAL = {
+    "": HDR + "from library import lib\nlib.apply(d0.On)\nlib.apply(2)\n",
+    "lib": HDR + "@constexpr\ndef lc(a):\n    return a * 2\n\ndef apply(v):\n    d3.Setting = v + lc(4)\n",
+}
 
 FORBIDDEN = {
     "open": HDR + "@constexpr\ndef ce(a):\n    f = open('/etc/hostname')\n    return a\n\ndb.Setting = ce(1)\n",
@@ -126,6 +132,7 @@ def run(tier: str) -> int:
         s = srcs if isinstance(srcs, str) else "\n".join(srcs.values())
         if "@constexpr" in s:
             items.append(dict(name=name, sources=srcs, tier=tier, strict=False, opts={}, ce_names=re.findall(r"@constexpr\s+def (\w+)", s), timeout=120))
+    items.append(dict(name="witness:lib_internal_call", sources=WITNESS_LIB_INTERNAL, tier=tier, opts={}, ce_names=["lc"], timeout=120))
     results = harness.pmap(task, items, nworkers=6)
     programs = 0
     for spec, r in zip(items, results):
@@ -139,6 +146,8 @@ def run(tier: str) -> int:
         bad += r.get("leaks", [])
         if r["status"] == "load_error":
             bad.append("unloadable: " + r.get("detail", ""))
+        if spec["name"].startswith("witness:") and r["status"] == "compile_error":
+            bad.append("rejected: " + r.get("detail", ""))
         for b in bad:
             k = next((x for x in known if x.get("program") == spec["name"]), None)
             if k is not None:
